@@ -24,7 +24,7 @@ META = {
               'effect may reach memory aliasing a parameter or stored field (set_snr excepted); no global/class-attribute writes; lazily set trainer attributes follow the '
               '`is None` + assert protocol; random numbers only when initialization is None; a cACGMM fit continued from a model starts with the E-step and has all M-step inputs assigned. '
               'Decides necessary conditions, not bit-exact reproducibility. '
-              'Also: the dimension a stateful trainer remembers / compares is the last axis of the observation. Also: an array returned by an lru_cache / cache function is storage shared between calls: no in-place effect reaches it. A public memoised function does not return writable arrays. Effects on lists / dicts are judged when the receiver is a parameter or a value taken out of **kwargs. ndarray.conj() / .conjugate() keep the alias of their operand unless it is known to be complex (they return the array itself for a real dtype). Also: a keyed store into a module-level table or into a table an object created empty is accepted only when the stored value is computed from the components of its key alone (a memo of a pure function); a value that depends on something the key ignores, an id() key or a rounded key are violations, a key that mentions an operand only through a shape or a part is undecided.',
+              'Also: the dimension a stateful trainer remembers / compares is the last axis of the observation. Also: an array returned by an lru_cache / cache function is storage shared between calls: no in-place effect reaches it. A public memoised function does not return writable arrays. Effects on lists / dicts are judged when the receiver is a parameter or a value taken out of **kwargs. ndarray.conj() / .conjugate() keep the alias of their operand unless it is known to be complex (they return the array itself for a real dtype). Also: a keyed store into a module-level table or into a table an object created empty is accepted only when the stored value is computed from the components of its key alone (a memo of a pure function); a value that depends on something the key ignores, an id() key or a rounded key are violations, a key that mentions an operand only through a shape or a part is undecided. Also (round 14): no in-place effect on a broadcast view (R-OVERLAP, shared with C06).',
         note='Trusted: numpy view/copy table; results of unmodelled library calls may alias any argument (reported as unresolved, never as a violation). Cython variants not analysed.',
         design='DESIGN.md section 3 (C20)'),
     'C02': dict(
@@ -46,7 +46,7 @@ META = {
         technique='static analysis: signed-term linearisation of return expressions through reaching definitions (R-LIN) + einsum contraction-structure rules (R-EIN)',
         level='For all 8 distribution classes the linearised log_pdf / log-normaliser is checked atom by atom (sign, numeric coefficient, symbolic factors D, kappa, 1/2, Bessel order, '
               '1F1 arguments, sphere-area factor, partial-fraction form) and every quadratic / inner-product form on its contraction structure (conjugation, row index of the '
-              'precision Cholesky factor, per-feature scaling, reciprocal eigenvalues); the Bingham duplicate-eigenvalue spreading uses an absolute positive gap. Numerical values of special functions and integration to one are NOT decided. Also: no returned log-density of the complex families is complex-typed (R-REAL).',
+              'precision Cholesky factor, per-feature scaling, reciprocal eigenvalues); the Bingham duplicate-eigenvalue spreading uses an absolute positive gap. Numerical values of special functions and integration to one are NOT decided. Also: no returned log-density of the complex families is complex-typed (R-REAL). Also (round 14): a quantity cached at construction (precision Cholesky factor, log-determinant) cannot be set apart from the covariance: it is not a conditionally assigned constructor argument (R-DERIVED).',
         note='Trusted: density definitions, scikit-learn factor contract Sigma^-1 = P P^T. An unrecognised atom is unresolved (floor on recognised atoms), never an alarm.',
         design='DESIGN.md section 3 (C07)'),
     'C08': dict(
@@ -128,7 +128,7 @@ META = {
         level='For every `...`-documented distribution / mixture function: literal axes count from the right, axis-less reductions only in listed scalar idioms; every escaping value of a '
               'function that flattens leading axes passes a reshape derived from the original shape; the Bingham per-problem loop is index-local; numpy constructors get one shape argument; '
               'stored fields get no more einsum core letters than documented. Numeric equality of slices is NOT decided. '
-              'Also: no layout-dependent flattening (order=K / A), np.squeeze names its axis. Also: an axis computed from the rank of an array the operand is not tied to is a violation (foreign parameter) or undecided (broadcast partner). Also: a memo table of the Bingham trainer filled inside the per-problem loop must store values that are a function of their key (shared rule of C20).',
+              'Also: no layout-dependent flattening (order=K / A), np.squeeze names its axis. Also: an axis computed from the rank of an array the operand is not tied to is a violation (foreign parameter) or undecided (broadcast partner). Also: a memo table of the Bingham trainer filled inside the per-problem loop must store values that are a function of their key (shared rule of C20). Also (round 14): no in-place effect lands on a broadcast view (np.broadcast_to / broadcast_arrays results are tagged in the alias domain; R-OVERLAP).',
         note='Trusted: field comments / docstring shapes; the fixed-layout (F, K, T) integration models are excluded by their own contract.',
         design='DESIGN.md section 3 (C06)'),
     'C09': dict(
